@@ -13,6 +13,7 @@ type FuncResult struct {
 	Name     string
 	FC       *FuncContract
 	Obls     []*Obligation
+	SkippedOther int // obligations of clauses tagged only for other properties (discharged by their checks)
 	Used     []string
 	Unmod    []string
 	Notes    []string
